@@ -591,6 +591,49 @@ def shift_register(ctx, R="R-C01-shift-register"):
                 # tail write: buf[L-n:] = data[...] ; n samples
                 ok_t = thi == Lsym
                 ctx.check(ok_t, R, f, st, "new samples are written at the right end of the buffer", "new samples are written at %s" % astq.text(st.targets[0])[:80])
+                # a stash made after the frame loop keeps the *last* samples of the chunk: its source slice ends where the chunk ends
+                pm_ = astq.parents(f)
+                in_loop = any(isinstance(a_, (ast.While, ast.For)) for a_ in astq.ancestors(pm_, st))
+                used_later = any(isinstance(x_, ast.Name) and x_.id == getattr(v.value, "id", None) and x_.lineno > (st.end_lineno or st.lineno) for x_ in f.body_nodes())
+                if ok_t and not in_loop and not used_later and isinstance(v.value, ast.Name) and v.value.id in f.all_param_names():
+                    try:
+                        evf = SymEval(prog, f, inline_props=False).run()
+                        hi_e = S.NONE if vhi_raw is None else evf.eval_at(st, vhi_raw)
+                        lo_e = S.NONE if vlo_raw is None else evf.eval_at(st, vlo_raw)
+                    except Exception:
+                        hi_e = lo_e = None
+                    if hi_e is not None:
+                        from .. import scenario as SC
+                        try:
+                            clen = evf.eval_at(st, ast.parse("len(%s)" % v.value.id, mode="eval").body)
+                            g_ = evf.guard_of(st)
+                        except Exception:
+                            clen, g_ = S.call("len", S.sym(v.value.id)), S.TRUE
+                        w = None
+                        if hi_e == S.NONE:
+                            ok_e = True
+                        else:
+                            hi_s = S.subst(hi_e, {S.sym("chunk_len"): clen})
+                            (hi_q, len_q, g_q), names_ = SC.atomise(hi_s, clen, S.subst(g_, {S.sym("chunk_len"): clen}))
+                            if S.compare(hi_q, len_q, domain={})["verdict"] == "equal":
+                                ok_e = True
+                            else:
+                                syms_ = sorted(set(S.symbols(hi_q)) | set(S.symbols(len_q)) | set(S.symbols(g_q)))
+                                dom = {nm_: [Fraction(k) for k in range(0, 6)] for nm_ in syms_}
+                                reach = g_q if g_q.op in ("cmp", "and", "or", "not", "const") else S.cmp("<", S.ZERO, g_q)
+                                try:
+                                    w = S.find_witness(S.eand(reach, S.cmp("<", hi_q, len_q), S.cmp("<=", S.ZERO, hi_q)), dom, limit=300000) if len(syms_) <= 6 else None
+                                except Exception:
+                                    w = None
+                                if w is not None:
+                                    w = {names_.get(k, k)[:40]: v_ for k, v_ in w.items()}
+                                ok_e = None if w is None else False
+                        if ok_e is False:
+                            ctx.bad(R, f, st, "the samples stashed after the frame loop are %s, which does not end at the end of the chunk (e.g. %s): when more samples "
+                                    "remain than the buffer holds, older samples are kept and the newest are lost, so the frames that straddle the next "
+                                    "chunk are wrong" % (astq.text(v)[:70], w), "the stash after the frame loop keeps the most recent samples of the chunk")
+                        elif ok_e:
+                            ctx.ok(R, f.loc(st), "the stash after the frame loop keeps the most recent samples of the chunk")
     ctx.floor(R, n_w, 2)
 
 
